@@ -24,7 +24,7 @@ IskModes == {<<FALSE, 0>>, <<TRUE, 0>>, <<TRUE, 4>>, <<TRUE, 96>>}
 EncModes == {<<FALSE, 128, 0>>} \cup {<<TRUE, p, r>> : p \in {128, 256}, r \in 0..3}
 AllCfgs == {Cfg(cv, rs[1], rs[2], ik[1], ik[2], en[2], en[3], en[1], nx)
             : cv \in {32, 48}, rs \in RootSets, ik \in IskModes, en \in EncModes, nx \in {FALSE, TRUE}}
-TourA == {With(c, <<AC(1, 0), AC(2, 300), AC(14, 0)>>) : c \in AllCfgs}
+TourA == {With(c, <<AC(1, 0), AC(2, 300), AC(14, 0)>>) : c \in IF Full THEN AllCfgs ELSE {x \in AllCfgs : ~x.nxp \/ (x.nkeys = 3 /\ x.rights = 2)}}
 
 \* ---- a small configuration menu for the command tours
 FewCfgs == {Cfg(32, 1, 0, FALSE, 0, 128, 0, TRUE, FALSE), Cfg(48, 4, 2, TRUE, 4, 256, 3, TRUE, FALSE),
@@ -34,7 +34,7 @@ TwoCfgs == {Cfg(32, 4, 3, TRUE, 0, 128, 2, TRUE, FALSE), Cfg(48, 2, 0, FALSE, 0,
 \* ---- tour B: the stream (16 + commands) ends at offset 16*r of block b; the data command's last word is padded by q bytes
 Fixed(t) == Size(t, 0)                          \* size of a data command without its data
 Unit(t) == IF t = 5 THEN 4 ELSE 1               \* fuse data comes in words
-Pads == IF Full THEN 0..15 ELSE {0, 1, 8, 15}
+Pads == IF Full THEN 0..15 ELSE {0, 1, 15}
 Targets(t) == {p \in {CHUNK * (b - 1) + 16 * r - 16 - Fixed(t) : b \in 1..MaxBlocks, r \in 1..16} : p > 0}
 DLens(t) == {p - q : p \in Targets(t), q \in {x \in Pads : x % Unit(t) = 0}}
 BCfgs == IF Full THEN FewCfgs ELSE {c \in FewCfgs : c.nkeys # 2 /\ c.enc}
